@@ -21,7 +21,9 @@ def lfForm (text : Text) : Option Text :=
     conclusions of the full-file step theorems on this step:
     `H` hypotheses of C09_step, `C` its conclusion on what lint's decoder reads, `R` the template renders the contributors
     (`Spec.rendersCon`), `K` conclusion of C09_step_contributors, `D:` the single hypotheses
-    (merge, style, line boundaries, ignore old, ignore new, clean seam, above, old block, new block, LF form) -/
+    (merge, style, line boundaries, ignore old, ignore new, clean seam, above, old block, new block, LF form);
+    `M` hypotheses of C09_step_merge and `Spec.mergeReadsBack` (LF files), `N` the conclusions of C09_history_merge for this
+    step: licences, holders kept, every year stated before covered -/
 def stepC09 (fields : List String) : Option String :=
   match fields with
   | ["c09full", style, flags, tmpl, cpr, con, lic, bad, t] => do
@@ -42,7 +44,7 @@ def stepC09 (fields : List String) : Option String :=
       match annotateText o.c o.replace o.skipExisting o.info text with
       | .written out =>
         match lfForm text with
-        | none => pure "H0|C0|R0|K0|D:----------0"
+        | none => pure "H0|C0|R0|K0|D:----------0|M0|N0"
         | some u =>
           let o' : Spec.Op := { o with skipExisting := false }
           -- the LF result the theorems speak about
@@ -51,7 +53,7 @@ def stepC09 (fields : List String) : Option String :=
             | .written x => if decide (NoCR x) then some x else none
             | _ => none
           match t' with
-          | none => pure "H0|C0|R0|K0|D:----------0"
+          | none => pure "H0|C0|R0|K0|D:----------0|M0|N0"
           | some t' =>
             let s := sectionsOf o'.c o'.replace u
             let hNew := match newHeaderOf o' u with
@@ -65,8 +67,13 @@ def stepC09 (fields : List String) : Option String :=
             let concl := declaresB c.normLic after (before.cpr ++ info.cpr) (before.lic ++ info.lic)
             let ren := rendersCon o' u
             let conclCon := (before.con ++ info.con).all (after.con.contains ·)
+            let hypM := u == text && stepGoodMergeB o' u t' && mergeReadsBack o' u
+            let wanted := before.cpr ++ info.cpr
+            let conclM := (before.lic ++ info.lic).all (fun x => (after.lic.map c.normLic).contains (c.normLic x)) &&
+              (holdersOf wanted).all (fun s => (holdersOf after.cpr).contains s &&
+                (yearsIn wanted s).all (fun z => yearCoveredB after.cpr s z))
             pure ("H" ++ encodeBool hyp ++ "|C" ++ encodeBool concl ++ "|R" ++ encodeBool ren ++ "|K" ++ encodeBool conclCon ++
-                  "|D:" ++ String.join (d.map encodeBool))
+                  "|D:" ++ String.join (d.map encodeBool) ++ "|M" ++ encodeBool hypM ++ "|N" ++ encodeBool conclM)
       | _ => pure "-"
   | _ => none
 
